@@ -130,6 +130,11 @@ struct Writer {
 
     /// The number of bytes that have been written to the currently active file.
     written_bytes: u64,
+
+    /// Set when files have been created above the active file but the active file could not be
+    /// moved above them yet: the ID that must become the active file before anything else is
+    /// appended (IDs only grow and the files are replayed in ID order at startup).
+    pending_active_fileid: Option<u64>,
 }
 
 /// The reader reads log entries from data files given the locations found in KeyDir. Since data files
@@ -184,6 +189,7 @@ impl Bitcask {
             ))?)?,
             active_fileid,
             written_bytes: 0,
+            pending_active_fileid: None,
         }));
 
         let handle = Handle {
@@ -450,6 +456,7 @@ impl Writer {
         key: Bytes,
         value: Option<Bytes>,
     ) -> Result<KeyDirEntry, Error> {
+        self.move_above_created_files()?;
         // Append log entry
         let datafile_entry = DataFileEntry { tstamp, key, value };
         let index = match self.writer.append(&datafile_entry) {
@@ -514,10 +521,31 @@ impl Writer {
     /// Copy data from files that are included for merging. Once finish, copied files are deleted.
     #[tracing::instrument(level = "debug", skip(self))]
     fn merge(&mut self) -> Result<(), Error> {
+        self.move_above_created_files()?;
+        let mut merge_fileid = self.active_fileid + 1;
+        let merged = self.merge_files(&mut merge_fileid);
+        // Whether or not the pass went through, it may have created files with IDs above the active
+        // file (and may have removed the active file itself). Nothing may be appended below them any
+        // more; returning early here would leave newer entries below older copies.
+        self.pending_active_fileid = Some(merge_fileid + 1);
+        let moved = self.move_above_created_files();
+        merged.and(moved)
+    }
+
+    /// Opens the new active file that an earlier step has made necessary, if any. Until this has
+    /// succeeded no entry is appended.
+    fn move_above_created_files(&mut self) -> Result<(), Error> {
+        if let Some(fileid) = self.pending_active_fileid {
+            self.new_active_datafile(fileid)?;
+            self.pending_active_fileid = None;
+        }
+        Ok(())
+    }
+
+    /// The merge pass itself; `merge_fileid` is left at the highest id the pass has used.
+    fn merge_files(&mut self, merge_fileid: &mut u64) -> Result<(), Error> {
         let path = self.ctx.conf.path.as_path();
-        let min_merge_fileid = self.active_fileid + 1;
-        let mut merge_fileid = min_merge_fileid;
-        debug!(merge_fileid, "new merge file");
+        debug!(merge_fileid = *merge_fileid, "new merge file");
 
         // Get the set of file ids to be merged
         let fileids_to_merge = self.ctx.fileids_to_merge(path)?;
@@ -530,9 +558,9 @@ impl Writer {
             let mut readers = self.readers.borrow_mut();
             let mut merge_pos = 0;
             let mut merge_datafile_writer =
-                BufWriter::new(log::create(utils::datafile_name(path, merge_fileid))?);
+                BufWriter::new(log::create(utils::datafile_name(path, *merge_fileid))?);
             let mut merge_hintfile_writer =
-                LogWriter::new(log::create(utils::hintfile_name(path, merge_fileid))?)?;
+                LogWriter::new(log::create(utils::hintfile_name(path, *merge_fileid))?)?;
 
             // Only go through entries whose values are located within the merged files.
             for mut keydir_entry in self
@@ -557,12 +585,12 @@ impl Writer {
                 #[cfg(feature = "verif")]
                 crate::verif::point("merge.copied");
                 // update keydir so it points to the merge data file
-                keydir_entry.fileid = merge_fileid;
+                keydir_entry.fileid = *merge_fileid;
                 keydir_entry.len = nbytes;
                 keydir_entry.pos = merge_pos;
 
                 // the merge file must only contain live keys
-                let mut stats = self.ctx.stats.entry(merge_fileid).or_default();
+                let mut stats = self.ctx.stats.entry(*merge_fileid).or_default();
                 stats.add_live();
 
                 // write the KeyDir entry to the hint file for fast recovery
@@ -579,13 +607,13 @@ impl Writer {
                 merge_pos += nbytes;
                 if merge_pos > self.ctx.conf.max_file_size {
                     sync_merge_outputs(&mut merge_datafile_writer, &mut merge_hintfile_writer)?;
-                    merge_fileid += 1;
+                    *merge_fileid += 1;
                     merge_pos = 0;
                     merge_datafile_writer =
-                        BufWriter::new(log::create(utils::datafile_name(path, merge_fileid))?);
+                        BufWriter::new(log::create(utils::datafile_name(path, *merge_fileid))?);
                     merge_hintfile_writer =
-                        LogWriter::new(log::create(utils::hintfile_name(path, merge_fileid))?)?;
-                    debug!(merge_fileid, "new merge file");
+                        LogWriter::new(log::create(utils::hintfile_name(path, *merge_fileid))?)?;
+                    debug!(merge_fileid = *merge_fileid, "new merge file");
                 }
             }
             // The merged files below hold the only other copy of the entries we have just
@@ -597,7 +625,6 @@ impl Writer {
         crate::verif::point("merge.before_unlink");
         // Remove stale files from system and storage statistics
         for id in &fileids_to_merge {
-            self.ctx.stats.remove(id);
             if let Err(e) = fs::remove_file(utils::hintfile_name(path, *id)) {
                 if e.kind() != io::ErrorKind::NotFound {
                     return Err(e.into());
@@ -608,9 +635,11 @@ impl Writer {
                     return Err(e.into());
                 }
             }
+            // Only forget a file that is really gone: one that could not be removed must stay
+            // eligible for a later merge pass.
+            self.ctx.stats.remove(id);
         }
 
-        self.new_active_datafile(merge_fileid + 1)?;
         Ok(())
     }
 
